@@ -351,3 +351,22 @@ def _matched_raw(b, raw):
     if d is None or d[0] != 'call' or len(d[2]) < 2:
         return ()
     return init_value(b, d[2][1])
+
+
+@rule('C18', 'R-C18-4', 'T10 WHO (no state between calls)',
+      'match_words_with and edited_words consult no thread-local / static mutable state: every call starts from freshly built '
+      'matrices (a scratch buffer kept across calls leaks the counts of the previous texts into the borders)')
+def r4(ctx):
+    from rules.common import closures_in
+    n = 0
+    for fn in (MW, 'edit::edited_words'):
+        b0 = ctx.body(fn)
+        for b in [b0] + closures_in(ctx, b0):
+            n += 1
+            tls = [s for s in b.stmts() if s.kind == 'assign' and s.rv.kind == 'tls'] + list(b.calls(r'LocalKey.*::(with|with_borrow|with_borrow_mut|take|set|replace)$'))
+            st = [s for s in b.stmts() if s.kind == 'assign' and any(isinstance(x, tuple) and x and x[0] == 'static' for x in walk(sym(b, s.rv.ops[0]) if s.rv.ops else ()))]
+            ctx.require(not tls, b, 'no-ambient-state|' + fn.rsplit('::', 1)[-1], '%s uses no thread-local state' % fn,
+                        '%s keeps state in a thread local (line %d): the result of a call depends on the calls made before it on the same thread' % (
+                            fn, tls[0].span['line'] if tls else 0), tls[0].span if tls else None)
+    if n == 0:
+        raise AnchorMissing('word matching bodies')
